@@ -5,6 +5,18 @@ props = [json.loads(l) for l in open(os.path.join(VERIF, "properties.jsonl"))]
 ids = [p["id"] for p in props]
 
 CHECKS = {
+ "C19": dict(
+   text="Proof: props/C19.v, for all hierarchies (induction over the nested tree): after prune no dead branch — empty model, or solver "
+        "containing (recursively) nothing else — is left at any level (prune_no_dead); a hierarchy without dead branches is returned "
+        "unchanged, structures, connections and exposed pins included, so nothing else is removed and prune is idempotent; the returned "
+        "flag is 'the solver is empty'; the surviving leaf components are exactly the non-empty ones in order; the pruned solver "
+        "reports the network equations of the original circuit (prune_same_matrix, via C02). Closed under the global context. The tie "
+        "inserts empty models and dead solvers (nested, shared between placements) at random places and depths, calls prune() on /repo "
+        "and compares the returned flag, the tree of remaining structures at every level, and solve() after prune with the model.",
+   note="Trusted: Coq kernel + vm_compute; Bignums primitives for the executed instance; models Prune.v/Hier.v tied by sampled "
+        "correspondence; harness. prune_same_matrix assumes dead sub-solvers hold no connections (nothing can be wired to a pin-less "
+        "structure) and is conditional on the model returning Ok.",
+   technique="Coq proof by induction over hierarchies + vm_compute correspondence (shape, flag, matrix)", design="§5 C19"),
  "C17": dict(
    text="Proof: props/C17.v, by structural induction over ALL programs built from helper calls, sequencing, with-blocks, raise and "
         "try/except (any nesting depth, exceptions at any point, solvers re-entered while already active): the stack of active solvers "
